@@ -19,7 +19,7 @@ MUTATORS = ("assign", "cassign", "massign", "swap", "rec", "recf", "reca", "recf
 # ------------------------------------------------------------------ directed histories (witnesses, boundary shapes)
 def directed(mc):
     H = []
-    def h(mode, org, alloc, fa, fc, *ops): H.append("h %s %s %s %d %d %d | %s" % (mode, org, alloc, fa, fc, mc, " | ".join(ops)))
+    def h(mode, org, alloc, fa, fc, *ops): H.append("h %s %s %s %d %d %s | %s" % (mode, org, alloc, fa, fc, mc, " | ".join(ops)))
     for mode in ("dbg", "rel"):
         for alloc in ("pmr", "sf00"):
             # recreate / copy assignment between unequal non-propagating allocators (swap with a temporary)
@@ -112,7 +112,7 @@ def gen_history(r, mc, thorough):
         elif k < 76 and (alloc in POCS or alloc == "se" or policy < 7): ops.append("swap %d %d" % (s, r.choice(same)))
         elif k < 90: ops.append("write %d %d %d %d" % (s, r.below(8), r.below(8), v()))
         else: ops.append("destroy %d" % s); del occ[s]
-    return "h %s %s %s 0 0 %d | %s" % (mode, org, alloc, mc, " | ".join(ops))
+    return "h %s %s %s 0 0 %s | %s" % (mode, org, alloc, mc, " | ".join(ops))
 
 def with_fault(line, fa, fc):
     hd, rest = line.split(" | ", 1)
@@ -152,6 +152,13 @@ ASSUME = [
     "faults: one injected failure per history (the k-th allocation or the k-th element construction); assignment of elements does not throw",
 ]
 
+def degenerate_keeps_dims(ctx):
+    """source-selected model variant: does image::allocate_ build a view of the requested dimensions when no byte is needed?"""
+    try: text = open(os.path.join(ctx.include, "boost/gil/image.hpp")).read()
+    except OSError: return False
+    m = re.search(r"void allocate_\(point_t const& dimensions, std::false_type\)(.*?)_memory\s*=\s*_alloc\.allocate", text, re.S)
+    return bool(m and "create_view" in m.group(1))
+
 def compile_all(ctx, mc, elem_ok=True):
     defines = (["C10_ELEM_MASSIGN_COMPILES"] if mc else []) + ([] if elem_ok else ["C10_NO_ELEM"])
     def one(b):
@@ -166,11 +173,13 @@ def run(ctx, ops=None):
     obligations, discharged = vlib.standard_proof_steps(ctx)
     # compile probe (an observation, DESIGN.md 9: template selection is observed, not proven)
     pb, perr = vlib.compile_harness(ctx, "harness/C10/probe_massign.cpp", name="C10_probe", sanitize=False, opt="-O0")
-    mc = 1 if pb else 0
+    dg = 1 if degenerate_keeps_dims(ctx) else 0
+    ctx.cov["source_variant_degenerate_image_keeps_dimensions"] = bool(dg)
+    mc = "%d %d" % (1 if pb else 0, dg)          # the two tree flags of the history header: <mc> <dg>
     ctx.cov["probe_elem_move_assign_compiles"] = bool(pb)
     pe, _ = vlib.compile_harness(ctx, "harness/C10/probe_elem.cpp", name="C10_probe_elem", sanitize=False, opt="-O0")
     ctx.cov["probe_nontrivial_element_compiles"] = bool(pe)
-    bins = compile_all(ctx, mc, bool(pe))
+    bins = compile_all(ctx, bool(pb), bool(pe))
     samples, distinct = [], 0
     bad = [(b, e) for b, (p, e) in bins.items() if p is None]
     if bad:
@@ -186,7 +195,7 @@ def run(ctx, ops=None):
             ops = list(dict.fromkeys(ops))
         else:
             # replayed lines carry the mc flag of the tree they were recorded on: re-stamp with the current probe result
-            ops = [re.sub(r"^(h \S+ \S+ \S+ \d+ \d+) \d+", r"\g<1> %d" % mc, o) for o in ops]
+            ops = [re.sub(r"^(h \S+ \S+ \S+ \d+ \d+) \d+( \d+)?", r"\g<1> %s" % mc, o) for o in ops]
         groups = {}
         for o in ops:
             w = o.split()
